@@ -365,6 +365,12 @@ func heapTotals(d *Doc) (n, b, an, ab int64) {
 		an, ab = n+an+3, b+ab+300
 	case 3:
 		an, ab = n, b+300
+	case 4: // only the object totals differ
+		an, ab = n+3, b
+	case 5: // one allocation total is zero, the other differs
+		an, ab = 0, b+300
+	case 6:
+		an, ab = n+3, 0
 	}
 	return
 }
